@@ -39,9 +39,14 @@ def _fields(m):
             m.program, m.numerator, m.denominator, getattr(k, "value", k))
 
 
+_KINDS = set()
+
+
 def _content_abs(s):
     evs, dur = [], 0
     for m in s._abs._messages:
+        if m.time is not None:
+            _KINDS.add(type(m.time).__name__)
         t = m.time if m.time is not None else 0
         dur = max(dur, t)
         if m.message_type != MessageType.INTERNAL:
@@ -52,6 +57,8 @@ def _content_abs(s):
 def _content_rel(s):
     evs, c = [], 0
     for m in s._rel._messages:
+        if m.time is not None:
+            _KINDS.add(type(m.time).__name__)
         if m.message_type == MessageType.WAIT:
             c += m.time
         else:
@@ -81,6 +88,16 @@ def _ident(s):
 _GAP = set()
 
 
+def _argkinds(a, kw):
+    """type names of the numeric arguments of a call (lists one level deep)"""
+    out = set()
+    for x in list(a) + list(kw.values()):
+        for y in (x if isinstance(x, (list, tuple)) else [x]):
+            if isinstance(y, (int, float)) and not isinstance(y, bool) or type(y).__module__ == "numpy":
+                out.add(type(y).__name__)
+    return sorted(out)
+
+
 def _emit(rec):
     """Lines beyond the limit, and additions to objects too large to digest (file loading adds thousands of messages one
     by one), are not written; the next written line of such an object says so (gap)."""
@@ -91,6 +108,10 @@ def _emit(rec):
         _GAP.add(rec["obj"])
         return
     rec["n"] = n
+    rec.setdefault("kinds", [])
+    rec.setdefault("argKinds", [])
+    rec["known"] = "kinds" in rec and -4 not in (rec["ca"], rec["cr"]) and -2 not in (rec["ca"], rec["cr"]) and rec.get("_k", False)
+    rec.pop("_k", None)
     rec["gap"] = rec["obj"] in _GAP
     _GAP.discard(rec["obj"])
     _OUT.write(json.dumps(rec) + "\n")
@@ -116,9 +137,11 @@ def _wrap(name, fn, opname):
         finally:
             _DEPTH[0] -= 1
             op = opname(a, kw, res) if callable(opname) else opname
+            _KINDS.clear()
             ca, cr = _contents(self)
             _emit({"obj": vid, "op": op, "new": new, "b0": b0, "b1": _bits(self), "ca0": c0[0], "cr0": c0[1], "ca": ca,
-                   "cr": cr, "raised": raised, "test": os.environ.get("PYTEST_CURRENT_TEST", "").split(" ")[0]})
+                   "cr": cr, "raised": raised, "test": os.environ.get("PYTEST_CURRENT_TEST", "").split(" ")[0],
+                   "kinds": sorted(_KINDS), "argKinds": _argkinds(a, kw), "_k": True})
     return inner
 
 
